@@ -505,17 +505,17 @@ theorem noop_changes_nothing (s : Snapshot) (b : Base) : apply comb s (.noop b) 
 
 private def cmb (a b : String) : String := a ++ "/" ++ b
 private def demo : List SOp := [
-  ⟨.create ⟨"c0", "alice", 1, []⟩ "T0" "body" [], []⟩,
-  ⟨.addComment ⟨"a1", "bob", 2, []⟩ "hi" ["f1"], []⟩,
-  ⟨.labelChange ⟨"l1", "alice", 3, []⟩ ["zeta", "alpha", "zeta"] ["nope"], []⟩,
-  ⟨.editComment ⟨"e1", "carol", 4, []⟩ "a1" "hi (edited)" [], []⟩,
-  ⟨.editComment ⟨"e2", "carol", 5, []⟩ "unknown" "x" [], []⟩,
-  ⟨.setTitle ⟨"t1", "bob", 6, []⟩ "T1" "T0", []⟩,
-  ⟨.setStatus ⟨"s1", "bob", 7, []⟩ 2, []⟩,
-  ⟨.labelChange ⟨"l2", "alice", 8, []⟩ ["beta"] ["zeta"], []⟩,
-  ⟨.setMetadata ⟨"m1", "bob", 9, []⟩ "a1" [("k", "v1")], []⟩,
-  ⟨.setMetadata ⟨"m2", "bob", 10, []⟩ "a1" [("k", "v2")], []⟩,
-  ⟨.noop ⟨"n1", "bob", 11, []⟩, []⟩]
+  ⟨.create ⟨"c0", "alice", 1, [], ""⟩ "T0" "body" [], []⟩,
+  ⟨.addComment ⟨"a1", "bob", 2, [], ""⟩ "hi" ["f1"], []⟩,
+  ⟨.labelChange ⟨"l1", "alice", 3, [], ""⟩ ["zeta", "alpha", "zeta"] ["nope"], []⟩,
+  ⟨.editComment ⟨"e1", "carol", 4, [], ""⟩ "a1" "hi (edited)" [], []⟩,
+  ⟨.editComment ⟨"e2", "carol", 5, [], ""⟩ "unknown" "x" [], []⟩,
+  ⟨.setTitle ⟨"t1", "bob", 6, [], ""⟩ "T1" "T0", []⟩,
+  ⟨.setStatus ⟨"s1", "bob", 7, [], ""⟩ 2, []⟩,
+  ⟨.labelChange ⟨"l2", "alice", 8, [], ""⟩ ["beta"] ["zeta"], []⟩,
+  ⟨.setMetadata ⟨"m1", "bob", 9, [], ""⟩ "a1" [("k", "v1")], []⟩,
+  ⟨.setMetadata ⟨"m2", "bob", 10, [], ""⟩ "a1" [("k", "v2")], []⟩,
+  ⟨.noop ⟨"n1", "bob", 11, [], ""⟩, []⟩]
 
 example : (compile cmb demo).title = "T1" ∧ (compile cmb demo).status = 2 ∧
     (compile cmb demo).labels = ["alpha", "beta"] ∧
